@@ -112,10 +112,28 @@ Proof.
 Qed.
 
 (* ---------------- classification and the theorem ---------------- *)
+(* list-level << / >>, bulk parent assignment and the constructor with relation arguments undo the calls
+   that returned when a later one raises (all_or_nothing): atomic on every state *)
+Lemma all_or_nothing_atomic s r : snd (all_or_nothing s r) <> OK -> fst (all_or_nothing s r) = s.
+Proof.
+  unfold all_or_nothing. destruct r as [s1 [[]| |c]]; cbn [fst snd]; intro H; try reflexivity.
+  exfalso. apply H. reflexivity.
+Qed.
+
+Lemma all_or_nothing_ok s r s' : all_or_nothing s r = (s', OK) -> r = (s', OK).
+Proof.
+  unfold all_or_nothing. destruct r as [s1 [[]| |c]]; cbn [fst snd]; intro H; try discriminate H. exact H.
+Qed.
+
+Lemma all_or_nothing_cases s r :
+  (snd r = OK /\ all_or_nothing s r = r) \/ (snd r <> OK /\ all_or_nothing s r = (s, snd r)).
+Proof.
+  unfold all_or_nothing. destruct r as [s1 [[]| |c]]; cbn [fst snd]; [left|right|right]; split; try reflexivity; discriminate.
+Qed.
+
 Definition atomic_op (o : op) : bool :=
   match o with
-  | LstShift _ _ _ | LstSetParent _ _ | NewTaskRel _ _ _ _ _ _ => false    (* refuted below *)
-  | ChRemoveAll _ _ | LnRemoveAll _ _ _ | WbsRemoveAll _ _ => false          (* loops: partial below *)
+  | ChRemoveAll _ _ | LnRemoveAll _ _ _ | WbsRemoveAll _ _ => false          (* loops: atomic on WF states, below *)
   | _ => true
   end.
 
@@ -124,6 +142,7 @@ Lemma C15_atomic_core : forall s o, atomic_op o = true -> snd (step' s o) <> OK 
 Proof.
   intros s o A. destruct o; simpl in A; try discriminate A; simpl.
   - apply new_task_atomic.
+  - apply all_or_nothing_atomic.
   - intro H; exfalso; apply H; reflexivity.
   - apply set_parent_atomic.
   - apply set_children_atomic.
@@ -138,6 +157,8 @@ Proof.
   - apply ln_remove_atomic.
   - apply op_floordiv_atomic.
   - apply op_shift_atomic.
+  - apply all_or_nothing_atomic.
+  - apply all_or_nothing_atomic.
   - apply wbs_remove_atomic.
   - apply set_est_atomic.
   - intro H; exfalso; apply H; reflexivity.
@@ -304,19 +325,24 @@ Qed.
 
 (* the operation kinds outside [atomic_op] *)
 Lemma atomic_op_false_kinds o : atomic_op o = false ->
-  (exists d ts vs, o = LstShift d ts vs) \/ (exists ts p, o = LstSetParent ts p) \/
-  (exists i nm p ch su pr, o = NewTaskRel i nm p ch su pr) \/
   (exists x ids, o = ChRemoveAll x ids) \/ (exists d t ids, o = LnRemoveAll d t ids) \/
   (exists w ids, o = WbsRemoveAll w ids).
 Proof.
   destruct o; cbn [atomic_op]; intro H; try discriminate H.
-  - right; right; left. do 6 eexists; reflexivity.
-  - right; right; right; left. do 2 eexists; reflexivity.
-  - right; right; right; right; left. do 3 eexists; reflexivity.
-  - left. do 3 eexists; reflexivity.
-  - right; left. do 2 eexists; reflexivity.
-  - right; right; right; right; right. do 2 eexists; reflexivity.
+  - left. do 2 eexists; reflexivity.
+  - right; left. do 3 eexists; reflexivity.
+  - right; right. do 2 eexists; reflexivity.
 Qed.
+
+(* ---------------- the code before the all-or-nothing repair (F10) ---------------- *)
+(* the three operations as bare sequences of setter calls *)
+Definition step_seq (s : state) (o : op) : state * outcome :=
+  match o with
+  | LstShift d ts vs => lst_shift_seq d s ts vs
+  | LstSetParent ts p => lst_set_parent_seq s ts p
+  | NewTaskRel i nm p ch su pr => new_task_rel_seq s i nm p ch su pr
+  | _ => step s o
+  end.
 
 (* ---------------- refutations (F10): list-level <<, >>, bulk assignment, constructor ---------------- *)
 (* p = Task(1); a = Task(2); b = Task(3); p.children = [a, b];  p.children << b
@@ -326,7 +352,7 @@ Definition wit_lst_shift_pre : state :=
             SetChildren 0 [Some 1; Some 2]].
 Definition wit_lst_shift_op : op := LstShift true [1; 2] [Some 2].
 
-Lemma C15_refuted_lst_shift : exists s o, snd (step s o) <> OK /\ fst (step s o) <> s.
+Lemma C15_refuted_lst_shift : exists s o, snd (step_seq s o) <> OK /\ fst (step_seq s o) <> s.
 Proof.
   exists wit_lst_shift_pre, wit_lst_shift_op. split.
   - vm_compute. discriminate.
@@ -335,10 +361,10 @@ Qed.
 
 (* sharper: the call raises RuntimeError and an EXISTING task has a new predecessor and another a new successor *)
 Lemma C15_refuted_lst_shift_detail :
-  snd (step wit_lst_shift_pre wit_lst_shift_op) = Err /\
+  snd (step_seq wit_lst_shift_pre wit_lst_shift_op) = Err /\
   preds (get (hp wit_lst_shift_pre) 1) = [] /\
-  preds (get (hp (fst (step wit_lst_shift_pre wit_lst_shift_op))) 1) = [2] /\
-  succs (get (hp (fst (step wit_lst_shift_pre wit_lst_shift_op))) 2) = [1].
+  preds (get (hp (fst (step_seq wit_lst_shift_pre wit_lst_shift_op))) 1) = [2] /\
+  succs (get (hp (fst (step_seq wit_lst_shift_pre wit_lst_shift_op))) 2) = [1].
 Proof. vm_compute. auto. Qed.
 
 (* p = Task(1); a = Task(2); b = Task(3); p.children = [a, b];  p.children.parent = b
@@ -346,7 +372,7 @@ Proof. vm_compute. auto. Qed.
 Definition wit_lst_set_parent_pre : state := wit_lst_shift_pre.
 Definition wit_lst_set_parent_op : op := LstSetParent [1; 2] (Some 2).
 
-Lemma C15_refuted_lst_set_parent : exists s o, snd (step s o) <> OK /\ fst (step s o) <> s.
+Lemma C15_refuted_lst_set_parent : exists s o, snd (step_seq s o) <> OK /\ fst (step_seq s o) <> s.
 Proof.
   exists wit_lst_set_parent_pre, wit_lst_set_parent_op. split.
   - vm_compute. discriminate.
@@ -354,18 +380,18 @@ Proof.
 Qed.
 
 Lemma C15_refuted_lst_set_parent_detail :
-  snd (step wit_lst_set_parent_pre wit_lst_set_parent_op) = Err /\
+  snd (step_seq wit_lst_set_parent_pre wit_lst_set_parent_op) = Err /\
   kids (get (hp wit_lst_set_parent_pre) 0) = [1; 2] /\
-  kids (get (hp (fst (step wit_lst_set_parent_pre wit_lst_set_parent_op))) 0) = [2] /\
-  kids (get (hp (fst (step wit_lst_set_parent_pre wit_lst_set_parent_op))) 2) = [1] /\
-  par (get (hp (fst (step wit_lst_set_parent_pre wit_lst_set_parent_op))) 1) = Some 2.
+  kids (get (hp (fst (step_seq wit_lst_set_parent_pre wit_lst_set_parent_op))) 0) = [2] /\
+  kids (get (hp (fst (step_seq wit_lst_set_parent_pre wit_lst_set_parent_op))) 2) = [1] /\
+  par (get (hp (fst (step_seq wit_lst_set_parent_pre wit_lst_set_parent_op))) 1) = Some 2.
 Proof. vm_compute. auto. Qed.
 
 (* p = Task(1);  Task(3, parent=p, predecessors=[p]) : attached to p, then "parent as predecessor" *)
 Definition wit_new_task_rel_pre : state := run init [NewTask 1 None [] None].
 Definition wit_new_task_rel_op : op := NewTaskRel 3 [] (Some 0) None [] [Some 0].
 
-Lemma C15_refuted_new_task_rel : exists s o, snd (step s o) <> OK /\ fst (step s o) <> s.
+Lemma C15_refuted_new_task_rel : exists s o, snd (step_seq s o) <> OK /\ fst (step_seq s o) <> s.
 Proof.
   exists wit_new_task_rel_pre, wit_new_task_rel_op. split.
   - vm_compute. discriminate.
@@ -374,30 +400,30 @@ Qed.
 
 (* not an artefact of the allocation: an EXISTING task has got a child *)
 Lemma C15_refuted_new_task_rel_detail :
-  snd (step wit_new_task_rel_pre wit_new_task_rel_op) = Err /\
+  snd (step_seq wit_new_task_rel_pre wit_new_task_rel_op) = Err /\
   kids (get (hp wit_new_task_rel_pre) 0) = [] /\
-  kids (get (hp (fst (step wit_new_task_rel_pre wit_new_task_rel_op))) 0) = [1].
+  kids (get (hp (fst (step_seq wit_new_task_rel_pre wit_new_task_rel_op))) 0) = [1].
 Proof. vm_compute. auto. Qed.
 
 (* the three kinds are atomic per element too: what a raising call leaves is the effect of the
    element calls that returned *)
 Lemma C15_lst_shift_partial : forall d s ts vs,
-  snd (lst_shift d s ts vs) <> OK ->
+  snd (lst_shift_seq d s ts vs) <> OK ->
   exists done t rest, ts = done ++ t :: rest /\
-    snd (lst_shift d s done vs) = OK /\ fst (lst_shift d s ts vs) = fst (lst_shift d s done vs).
+    snd (lst_shift_seq d s done vs) = OK /\ fst (lst_shift_seq d s ts vs) = fst (lst_shift_seq d s done vs).
 Proof.
-  intros d s ts vs H. unfold lst_shift in *.
+  intros d s ts vs H. unfold lst_shift_seq in *.
   destruct (seq_calls_prefix (fun s' t => op_shift d s' t vs)
               (fun s' t => op_shift_atomic d s' t vs) _ _ H) as (done & c & rest & E & H1 & H2 & H3).
   exists done, c, rest. auto.
 Qed.
 
 Lemma C15_lst_set_parent_partial : forall s ts p,
-  snd (lst_set_parent s ts p) <> OK ->
+  snd (lst_set_parent_seq s ts p) <> OK ->
   exists done t rest, ts = done ++ t :: rest /\
-    snd (lst_set_parent s done p) = OK /\ fst (lst_set_parent s ts p) = fst (lst_set_parent s done p).
+    snd (lst_set_parent_seq s done p) = OK /\ fst (lst_set_parent_seq s ts p) = fst (lst_set_parent_seq s done p).
 Proof.
-  intros s ts p H. unfold lst_set_parent in *.
+  intros s ts p H. unfold lst_set_parent_seq in *.
   destruct (seq_calls_prefix (fun s' t => set_parent s' t p)
               (fun s' t => set_parent_atomic s' t p) _ _ H) as (done & c & rest & E & H1 & H2 & H3).
   exists done, c, rest. auto.
